@@ -145,6 +145,7 @@ int vp_cost_choose(int n, int costnz, const char *tag)
 int vp_choose(int n, const char *tag) { return vp_cost_choose(n, 0, tag); }
 int vp_env(int n, const char *tag) { return vp_cost_choose(n, 1, tag); }
 int vp_depth(void) { return me->len; }
+int vp_replaying(void) { return g_replay || g_single || me->len < me->plan_len; }
 int vp_bound(void) { return g_bound; }
 int vp_cost_spent(void)
 {
@@ -198,8 +199,9 @@ void vp_outcome_u64(uint64_t v) { me->outcome = vp_hash(&v, 8, me->outcome); }
 void vp_state(uint64_t key) { table_insert(T_states, T_states_mask, key, &S->states); }
 int vp_visited(uint64_t key)
 {
-	uint64_t k2[2] = { key, (uint64_t)vp_cost_spent() };
-	if (g_replay) return 0;
+	/* the deviations already spent matter only when a bound is in force */
+	uint64_t k2[2] = { key, g_bound >= 0 ? (uint64_t)vp_cost_spent() : 0 };
+	if (g_replay || g_single || me->len < me->plan_len) return 0;   /* never cut inside the replayed prefix / a single replay */
 	if (table_insert(T_states, T_states_mask, vp_hash(k2, 16, 7), &S->states)) return 0;
 	__atomic_add_fetch(&S->merged, 1, __ATOMIC_RELAXED);
 	return 1;
@@ -261,7 +263,7 @@ static void child_loop(int batch)
 	int to = H->timeout_s ? H->timeout_s : 20;
 	if (g_replay || batch == 1) to *= 3;
 	while (!me->done && n < batch && (!S->stop || g_single)) {
-		alarm(to);
+		if ((n & 31) == 0) alarm(batch == 1 ? to : 4 * to);
 		begin_exec();
 		H->run();
 		me->in_exec = 0;
